@@ -2,8 +2,9 @@ import Litep2pVerif.Model.Mss.Message
 /-!
 # `LengthDelimited` (`src/multistream_select/length_delimited.rs`)
 
-The frame reader (`Stream::poll_next`) and writer (`start_send`, `poll_write_buffer`) over a carrier
-that delivers arbitrary chunk sizes and `Poll::Pending`: every inner `poll_read` / `poll_write`
+The frame reader (`Stream::poll_next`) and writer (`start_send`, `poll_write_buffer`, `poll_flush`,
+`poll_close`, `LengthDelimitedReader::poll_write`) over a carrier that may stage written bytes until
+its flush completes and that delivers arbitrary chunk sizes and `Poll::Pending`: every inner `poll_read` / `poll_write`
 consumes one *choice* from a schedule — `0` is `Pending`, `k > 0` transfers at most `k` bytes (at
 least one). Restricting what is available to the reader at a given moment (because the writer has
 not written it yet) is the same as a smaller choice or a `Pending`, so quantifying over all
@@ -145,6 +146,110 @@ def pollWriteBuffer : Writer → Bytes → List Nat → Writer × Bytes × List 
     else
       let n := min ch w.writeBuffer.length
       pollWriteBuffer { writeBuffer := w.writeBuffer.drop n } (out ++ w.writeBuffer.take n) s
+
+/-! ### The write half of the carrier, with a staging buffer
+
+A transport may *stage* what `poll_write` accepts (the encrypt buffer of a noise socket, a buffered
+websocket stream) and put it on the wire only when its `poll_flush` completes. `wb = true` is such a
+write-behind carrier; `wb = false` is the write-through carrier (accepted bytes are visible to the peer
+at once). The inner `poll_flush` answers `Pending` or `Ready` as a schedule of answers decides. -/
+
+/-- The write half of the carrier as the peer and the writer see it. -/
+structure WCarrier where
+  /-- write-behind: `poll_write` only stages -/
+  wb : Bool := false
+  /-- the bytes the peer can read (or has read) -/
+  visible : Bytes := []
+  /-- accepted by `poll_write`, not yet on the wire -/
+  staged : Bytes := []
+  closed : Bool := false
+  deriving DecidableEq, Repr
+
+/-- Inner `poll_write` accepted `bs`. -/
+def WCarrier.accept (c : WCarrier) (bs : Bytes) : WCarrier :=
+  if c.wb then { c with staged := c.staged ++ bs }
+  else { c with visible := c.visible ++ c.staged ++ bs, staged := [] }
+
+/-- The inner `poll_flush` returned `Ready(Ok(()))`: everything staged is on the wire. -/
+def WCarrier.flushed (c : WCarrier) : WCarrier :=
+  { c with visible := c.visible ++ c.staged, staged := [] }
+
+/-- `LengthDelimited` (write half) over a carrier, together with the schedules that decide what the
+carrier does next: `ws` — one choice per inner `poll_write` (`0`: `Pending`, `k`: accepts at most `k`
+bytes, at least one); `fs` — one answer per inner `poll_flush` (`false`: `Pending`, after arranging a
+wake-up; `true`: `Ready`). An exhausted schedule ends the observation (reported as `pending`). -/
+structure SinkIo where
+  w : Writer := {}
+  c : WCarrier := {}
+  ws : List Nat := []
+  fs : List Bool := []
+  deriving DecidableEq, Repr
+
+/-- `poll_write_buffer` over the carrier: `while !write_buffer.is_empty() { inner.poll_write(..) }`. -/
+def pollWriteBufferC : Writer → WCarrier → List Nat → Writer × WCarrier × List Nat × WriteRes
+  | w, c, [] => (w, c, [], if w.writeBuffer = [] then .ready else .pending)
+  | w, c, ch :: s =>
+    if w.writeBuffer = [] then (w, c, ch :: s, .ready)
+    else if ch = 0 then (w, c, s, .pending)
+    else
+      pollWriteBufferC { writeBuffer := w.writeBuffer.drop (min ch w.writeBuffer.length) }
+        (c.accept (w.writeBuffer.take (min ch w.writeBuffer.length))) s
+
+/-- `<LengthDelimited as Sink>::poll_flush`: write the buffered frames out (`Pending` if the carrier
+does not take them all), THEN flush the underlying stream and return ITS answer — also when this
+poll found the write buffer already empty: an earlier poll may have handed the frames over and got
+`Pending` from the inner flush. -/
+def sinkPollFlush (s : SinkIo) : SinkIo × WriteRes :=
+  match pollWriteBufferC s.w s.c s.ws with
+  | (w', c', ws', .pending) => ({ s with w := w', c := c', ws := ws' }, .pending)
+  | (w', c', ws', .ready) =>
+    match s.fs with
+    | [] => ({ s with w := w', c := c', ws := ws' }, .pending)
+    | true :: fs' => ({ w := w', c := c'.flushed, ws := ws', fs := fs' }, .ready)
+    | false :: fs' => ({ w := w', c := c', ws := ws', fs := fs' }, .pending)
+
+/-- A flush that is polled again after every `Pending` (what `FlushProtocol` / `Flush` of the
+negotiation futures and `flush().await` of an application do), at most `fuel` polls. -/
+def flushRun : Nat → SinkIo → SinkIo × WriteRes
+  | 0, s => (s, .pending)
+  | fuel + 1, s =>
+    match sinkPollFlush s with
+    | (s', .ready) => (s', .ready)
+    | (s', .pending) => flushRun fuel s'
+
+/-- `Sink::poll_ready`: only a write buffer of `MAX_FRAME_SIZE` bytes or more is written out first. -/
+def sinkPollReady (s : SinkIo) : SinkIo × WriteRes :=
+  if maxFrameSize ≤ s.w.writeBuffer.length then
+    match pollWriteBufferC s.w s.c s.ws with
+    | (w', c', ws', r) => ({ s with w := w', c := c', ws := ws' }, r)
+  else (s, .ready)
+
+/-- `Sink::poll_close`: write the buffered frames out, then close the underlying stream. Closing a
+carrier that still stages bytes implies flushing them (one flush answer); otherwise it completes. -/
+def sinkPollClose (s : SinkIo) : SinkIo × WriteRes :=
+  match pollWriteBufferC s.w s.c s.ws with
+  | (w', c', ws', .pending) => ({ s with w := w', c := c', ws := ws' }, .pending)
+  | (w', c', ws', .ready) =>
+    if c'.staged = [] then ({ s with w := w', c := { c' with closed := true }, ws := ws' }, .ready)
+    else
+      match s.fs with
+      | [] => ({ s with w := w', c := c', ws := ws' }, .pending)
+      | true :: fs' => ({ w := w', c := { c'.flushed with closed := true }, ws := ws', fs := fs' }, .ready)
+      | false :: fs' => ({ w := w', c := c', ws := ws', fs := fs' }, .pending)
+
+/-- `LengthDelimitedReader::poll_write` (the lazy dialer's application data): the frames still
+buffered go out first, then ONE inner `poll_write` of the application's bytes. `some k`: `Ok(k)`. -/
+def readerPollWrite (s : SinkIo) (buf : Bytes) : SinkIo × Option Nat :=
+  match pollWriteBufferC s.w s.c s.ws with
+  | (w', c', ws', .pending) => ({ s with w := w', c := c', ws := ws' }, none)
+  | (w', c', ws', .ready) =>
+    if buf = [] then ({ s with w := w', c := c', ws := ws' }, some 0)
+    else
+      match ws' with
+      | [] => ({ s with w := w', c := c', ws := [] }, none)
+      | ch :: rest =>
+        if ch = 0 then ({ s with w := w', c := c', ws := rest }, none)
+        else ({ s with w := w', c := c'.accept (buf.take (min ch buf.length)), ws := rest }, some (min ch buf.length))
 
 /-- The byte stream of a sequence of frames. -/
 def wire (fs : List Bytes) : Bytes := (fs.map frameBytes).flatten
